@@ -258,6 +258,7 @@ inductive GCond where
   | lt (a b : GExpr)
   | ge (a b : GExpr)
   | le (a b : GExpr)
+  | not (c : GCond)
   | unknown (text : String)
   deriving DecidableEq, Repr, Inhabited
 
